@@ -101,7 +101,19 @@ impl WaitInfo {
     ///
     /// [`code`]: WaitInfo::code
     pub fn status(&self) -> ExitStatus {
-        unsafe { ExitStatus::from_raw(self.0.si_status()) }
+        let status = unsafe { self.0.si_status() };
+        // `ExitStatus::from_raw` expects a wait status as returned by
+        // `wait(2)`, which encodes the exit code and the signal differently
+        // than `siginfo_t` (where `si_code` says what `si_status` holds).
+        let wait_status = match self.0.si_code {
+            libc::CLD_EXITED => (status & 0xff) << 8,
+            libc::CLD_KILLED => status & 0x7f,
+            libc::CLD_DUMPED => (status & 0x7f) | 0x80,
+            libc::CLD_STOPPED | libc::CLD_TRAPPED => ((status & 0xff) << 8) | 0x7f,
+            libc::CLD_CONTINUED => 0xffff,
+            _ => status,
+        };
+        ExitStatus::from_raw(wait_status)
     }
 
     /// Status of the child process.
